@@ -124,3 +124,85 @@ def gen_mix(rnd, n, tier="quick"):
         cfg = mix_cfg(rnd)
         out.append(Case(compile_line(cfg, src), src, cfg, {"mix": True}))
     return out
+
+# ---------------------------------------------------------------------------------------------
+# boundary shapes: counts 0 / 1 / 10+ (two-digit numbering), adjacency of equal statement kinds,
+# first / last positions, empty constructs, extreme number literals, awkward characters
+NUMS = ["0", "1", "9", "10", "11", "99", "100", "255", "256", "9999", "10000", "65535", "65536", "2147483647", "2147483648", "4294967296",
+        "9223372036854775807", "9223372036854775808", "0x0", "0xFF", "0xff", "0x10000", "0x7fffffffffffffff", "00", "07", "010", "08", "-1", "-0", "-9999", "1_000"]
+CHARS = ["%", "%s", "%%", "\\\\", "$", "$$", "{", "}", "{}", "{A}", "'", "é", "\u3000", "\u00a0", "😀", "\\n", "\\p\\p", "\\0", ";", "`", "#not", "//not", "\t"]
+
+def boundary_program(r, k):
+    p = "B%d" % k; out = []
+    def txt(): return "w%s %s x" % (r.choice(NUMS[:8]), r.choice(CHARS))
+    shape = r.choice(["manytexts", "manymoves", "longlists", "adjacent", "empties", "numbers", "elifs", "cases", "names", "edges", "manyscripts"])
+    if shape == "manytexts":
+        n = r.choice([10, 11, 12, 21])
+        out.append("script %s {\n%s\n}" % (p, "\n".join('  msgbox("t%d %s")' % (i, r.choice(CHARS)) for i in range(n))))
+        out.append("script %s_b { msgbox(\"t%d %%\") msgbox(\"t3 x\") }" % (p, n - 1))
+    elif shape == "manymoves":
+        n = r.choice([10, 11, 13])
+        out.append("script %s {\n%s\n}" % (p, "\n".join("  applymovement(%d, moves(walk_up * %d face_left))" % (i, i + 1) for i in range(n))))
+    elif shape == "longlists":
+        n = r.choice([10, 11, 16])
+        out.append("movement %s_m { %s }" % (p, " ".join(r.choice(["walk_up", "delay_1", "step_%d" % i]) for i in range(n))))
+        out.append("mart %s_a { %s }" % (p, " ".join("ITEM_%d" % i for i in range(n))))
+        out.append("mapscripts %s_ms { MAP_SCRIPT_ON_FRAME_TABLE [\n%s\n] }" % (p, "\n".join("  VAR_T, %d%s" % (i, r.choice([": Ext_%d" % i, " { lock msgbox(\"r%d\") }" % i])) for i in range(n))))
+    elif shape == "adjacent":
+        kind = r.choice(["mart", "movement", "text", "raw", "script", "mapscripts", "const"])
+        for i in range(r.choice([2, 3])):
+            if kind == "mart": out.append("mart%s %s_%d { ITEM_A %s }" % (r.choice(["", "(global)"]), p, i, r.choice(["", "ITEM_NONE", "ITEM_B"])))
+            elif kind == "movement": out.append("movement %s_%d { walk_up %s }" % (p, i, r.choice(["", "* 2", "step_end"])))
+            elif kind == "text": out.append('text%s %s_%d { "%s" }' % (r.choice(["", "(local)"]), p, i, txt()))
+            elif kind == "raw": out.append("raw `\n%s_%d:\n\t.byte %d\n`" % (p, i, i))
+            elif kind == "script": out.append("script%s %s_%d { %s }" % (r.choice(["", "(local)"]), p, i, r.choice(["", "lock", "end", 'msgbox("same")'])))
+            elif kind == "mapscripts": out.append("mapscripts %s_%d { MAP_SCRIPT_ON_LOAD { lock } }" % (p, i))
+            else: out.append("const %s_%d = %s" % (p, i, r.choice(NUMS)))
+        out.append("script %s_use { cmd(%s_0, %s_1) }" % (p, p, p))
+    elif shape == "empties":
+        out.append("script %s { }" % p)
+        out.append("script %s_b { if (flag(F)) { } elif (flag(G)) { } else { } while (flag(H)) { } do { } while (flag(I)) switch (var(V)) { case 1: case 2: default: } after }" % p)
+        out.append("script %s_c { lock if (flag(F)) { } }" % p)
+        out.append("script %s_d { if (flag(F)) { } else { x } }" % p)
+        out.append("mart %s_m { }" % p); out.append("movement %s_v { }" % p); out.append("mapscripts %s_s { }" % p)
+        out.append("mapscripts %s_t { MAP_SCRIPT_ON_FRAME_TABLE [ ] MAP_SCRIPT_ON_LOAD { } }" % p)
+        out.append('text %s_x { "" }' % p); out.append("raw ``"); out.append('script %s_e { msgbox("") applymovement(1, moves()) msgbox(format("")) }' % p)
+    elif shape == "numbers":
+        a, b, c = r.choice(NUMS), r.choice(NUMS), r.choice(NUMS)
+        out.append("const %s_K = %s" % (p, a))
+        out.append("movement %s_m { walk_up * %s walk_down * %s }" % (p, b, r.choice(["1", "2", "%s_K" % p])))
+        out.append('script %s { setvar(VAR_A, %s) if (var(VAR_A) >= %s) { a } switch (var(VAR_B)) { case %s: x case %s: y } msgbox(format("aa bb cc dd", "TEST", %s, numLines=%s)) }' % (p, a, b, c, a if r.random() < 0.2 else "77", r.choice(NUMS), r.choice(NUMS[:12])))
+        out.append("mapscripts %s_s { MAP_SCRIPT_ON_FRAME_TABLE [ VAR_T, %s: Ext ] }" % (p, c))
+    elif shape == "elifs":
+        n = r.choice([9, 10, 12])
+        out.append("script %s { if (flag(F0)) { c0 }%s else { z } after }" % (p, "".join(" elif (var(V) == %d) { c%d }" % (i, i) for i in range(1, n))))
+    elif shape == "cases":
+        n = r.choice([10, 12, 17])
+        out.append("script %s { switch (var(V)) {%s } after }" % (p, "".join(" case %d:%s" % (i, r.choice(["", " b%d" % i, " b%d break" % i, " break"])) for i in range(n)) + r.choice(["", " default: d", " default:"])))
+    elif shape == "names":
+        out.append('script %s_Text { if (flag(F)) { lock } msgbox("x") release }' % p)
+        out.append('script %s { msgbox("a") msgbox("b") %s_9: x goto(%s_9) }' % (p, p, p))
+        out.append("script %s_1x { é_cmd(ÑAME, 𝒳) end_x returnx }" % p)
+        out.append("movement %s_Movement { walk_up }" % p)
+    elif shape == "edges":
+        first = r.choice(["mart E_m { ITEM_A }", 'text E_t { "x" }', "movement E_v { walk_up }", "raw `x`", "const E_K = 1", "# c", "mapscripts E_s { }", ""])
+        out.append(first); out.append("script %s { lock }" % p)
+        out.append(r.choice(["mart %s_m { ITEM_A }" % p, 'text %s_t { "x%%" }' % p, "movement %s_v { walk_up }" % p, "raw `y`", "const %s_K = 2" % p, "// end", "script %s_z { end }" % p]))
+    else:
+        n = r.choice([10, 12])
+        for i in range(n): out.append("script %s_%d { %s }" % (p, i, r.choice(["lock", 'msgbox("shared")', "if (flag(F)) { a }", "applymovement(1, moves(walk_up))"])))
+    return "\n".join(out) + r.choice(["\n", "", "\n\n"])
+
+def gen_boundary(rnd, n):
+    out = []
+    for i in range(n):
+        src = boundary_program(rnd, i)
+        if rnd.random() < 0.25: src = relayout(src, rnd)
+        cfg = mix_cfg(rnd)
+        out.append(Case(compile_line(cfg, src), src, cfg, {"mix": True}))
+    return out
+
+_gen_mix_plain = gen_mix
+def gen_mix(rnd, n, tier="quick"):
+    k = n // 3
+    return _gen_mix_plain(rnd, n - k, tier) + gen_boundary(rnd, k)
